@@ -11,7 +11,7 @@ from common import Case
 PID = "C04"
 OPNAMES = {11: "prepend_header", 1: "notif_enc"}
 ORACLES = {11: 111, 1: 101}
-RULE = ("function level: prependHeader for every type and body lengths 0..4077 (boundaries and random), NOTIFICATION encoding. "
+RULE = ("function level: prependHeader for every type and body lengths 0..4077 (boundaries and random), each frame re-read after three later encodings and after the caller overwrote its body buffer (no shared storage), NOTIFICATION encoding. "
         "System level: Established sessions with hold time 3 s (keep-alive timer firing) while 2..8 goroutines call WriteUpdate "
         "with tagged bodies (goroutine, sequence) of 0..4073 further bytes, WriteUpdate from inside OnEstablished and from inside "
         "the UPDATE handler, teardown and re-establishment while writers run; the remote parses the byte stream strictly "
